@@ -63,7 +63,7 @@ def unixOf (t : Int) : Int := t / second - unixToInternal
 inductive Rej where
   | credNotBefore | credNotAfter            -- profileLimitDuration / sshLimitDuration
   | past | naBeforeNb | tooShort | tooLong   -- validityValidator, sshCertValidityValidator
-  | lifetime0                                -- softcas
+  | lifetime0 | encode                       -- softcas / x509.CreateCertificate
   | afterGtBefore | mvEpoch                  -- ModifyValidity
   | tokEpoch                                 -- JWK / X5C / Nebula AuthorizeSSHSign (token options)
   | badType | typeUnset | typeUnknown | vaZero | vbBeforeVa
@@ -285,6 +285,11 @@ def x509Leaf (cl : Claimer) (m : Mode) (now vnow : Int) (c : Cert) (so : SignOpt
   validityValid cl.minTLS cl.maxTLS vnow leaf so.backdate
   pure leaf
 
+/-- `x509.CreateCertificate` can encode years 0000–9999 only (UTCTime / GeneralizedTime) -/
+def encodable (t : Int) : Prop := -31622400 * second ≤ t ∧ t < 315537897600 * second
+
+instance (t : Int) : Decidable (encodable t) := by unfold encodable; infer_instance
+
 /-- authority/tls.go Sign: `lifetime := leaf.NotAfter.Sub(leaf.NotBefore.Add(backdate))`;
     softcas.CreateCertificate keeps non-zero template dates (zero ones are derived from the CAS
     clock `casNow`); DER encoding keeps whole seconds. -/
@@ -294,7 +299,7 @@ def softcasCreate (casNow : Int) (leaf : Cert) (backdate : Int) : Out Cert :=
   else
     let nb := if leaf.nb = 0 then casNow + wrap64 (-1 * backdate) else leaf.nb
     let na := if leaf.na = 0 then casNow + lifetime else leaf.na
-    .ok ⟨trunc nb, trunc na⟩
+    if encodable nb ∧ encodable na then .ok ⟨trunc nb, trunc na⟩ else .rej .encode
 
 /-- the issued certificate's validity for a sign request -/
 def x509Sign (cl : Claimer) (m : Mode) (now vnow casNow : Int) (c : Cert) (so : SignOpts) : Out Cert := do
